@@ -14,7 +14,7 @@ LEVEL = 'Generated-input exploration: for every k from 1 to min(n,m) the algebra
 BUDGET = {"quick": 250, "thorough": 7000}
 RULE = ("Cases: centred unit-variance X (tall/wide/square, 30% rank-deficient; 3..14, thorough to 36), Y = XB + noise with 1..3 "
         "targets (1-D y when one target and a drawn flag), mixing in {.05,.3,.5,.9,1}, both spaces, Ridge(alpha) without intercept, "
-        "new data of 1..6 rows; every k from 1 to min(n,m) is fitted with the full solver.  Oracle: dense eigh of the modified Gram "
+        "new data of 1..6 rows; every k from 1 to min(n,m) is fitted with the full solver; one extra fit per case on a 14..120 x 12..90 data set with a truncated solver (randomized / arpack / auto, k <= min(12, min(n,m)-11)) for the solver-independent identities.  Oracle: dense eigh of the modified Gram "
         "matrix built from an independent closed-form Yhat, plus the algebraic identities of the property.  Non-trivial: at least two "
         "values of k whose retained eigenvalue is non-zero (> 1e-8 lambda_1); distinct = SHA-1 of the canonical case.")
 ASSUMPTIONS = [
@@ -35,7 +35,15 @@ def strategy_(draw, tier):
     q = draw(st.integers(1, 6))
     Xnew = gen.normal(draw, (q, m)) * draw(st.sampled_from([0.1, 1.0, 3.0])) + draw(st.sampled_from([0.0, 0.0, 1.0])) * gen.normal(draw, (m,))
     Ynew = gen.normal(draw, (q, Y.shape[1])) + draw(st.sampled_from([0.0, 1.0]))
-    return {"shape": d["shape"], "lowrank": d["lowrank"], "X": X, "Y": Y, "Xnew": Xnew, "Ynew": Ynew,
+    # a larger data set for the truncated solvers (their sketch / Krylov space must not span the whole matrix)
+    ns, ms = draw(st.integers(14, 120)), draw(st.integers(12, 90))
+    Xs = gen.normal(draw, (ns, ms)) * np.exp(0.5 * gen.normal(draw, (ms,)))
+    Xs = Xs - Xs.mean(0)
+    Ys = Xs @ gen.normal(draw, (ms, draw(st.integers(1, 3)))) + 0.3 * gen.normal(draw, (ns, 1))
+    Ys = Ys - Ys.mean(0)
+    trunc = {"X": Xs, "Y": Ys, "k": draw(st.integers(1, max(1, min(min(ns, ms) - 11, 12)))), "solver": draw(st.sampled_from(["randomized", "arpack", "auto"])),
+             "seed": draw(st.integers(0, 9)), "Xnew": gen.normal(draw, (3, ms))}
+    return {"shape": d["shape"], "lowrank": d["lowrank"], "X": X, "Y": Y, "Xnew": Xnew, "Ynew": Ynew, "trunc": trunc,
             "mixing": draw(st.sampled_from([0.05, 0.3, 0.5, 0.9, 1.0])),
             "space": draw(st.sampled_from(["feature", "sample"])),
             "alpha": draw(st.sampled_from([1e-6, 1e-2, 1.0])),
@@ -134,11 +142,48 @@ def check(case, ctx):
         prevT = T
         if ctx.problems:
             return
+    if "trunc" in case:
+        truncated_solver_algebra(case, ctx)
     ctx.true("loss-X-nonincreasing", bool(np.all(np.diff(lx) <= 1e-8 * nX2)), "training X losses %s" % np.round(lx, 9).tolist())
     ctx.true("loss-Y-nonincreasing", bool(np.all(np.diff(ly) <= 1e-8 * nY2)), "training Y losses %s" % np.round(ly, 9).tolist())
     ctx.count("fits", min(n, m))
     if retained_ks >= 2:
         ctx.nontrivial = True
+
+
+def truncated_solver_algebra(case, ctx):
+    """The projector identities do not depend on how the eigenvectors were obtained: they are checked once per case on a larger data
+    set with a truncated solver (whatever subspace it returns, transform / predict / inverse_transform / score must be consistent)."""
+    t = case["trunc"]
+    X, Y, k = t["X"], t["Y"], t["k"]
+    n, m = X.shape
+    a, mix, space = case["alpha"], case["mixing"], case["space"]
+    ctx.cls("truncated=" + t["solver"])
+    with ctx.lib("fit(truncated solver)"):
+        p = PCovR(mixing=mix, n_components=k, space=space, regressor=Ridge(alpha=a, fit_intercept=False, tol=1e-12), svd_solver=t["solver"],
+                  random_state=t["seed"]).fit(X, Y)
+        T = p.transform(X)
+        Tn = p.transform(t["Xnew"])
+        pX, pT = np.asarray(p.predict(X)), np.asarray(p.predict(T=T))
+        R = p.inverse_transform(T)
+        T2 = p.transform(R)
+        Tn2 = p.transform(p.inverse_transform(Tn))
+        s = p.score(X, Y)
+    wh = "%s solver, %s space, k=%d of %dx%d" % (t["solver"], space, k, n, m)
+    tsc = max(1.0, float(np.abs(T).max()))
+    ctx.close("truncated:transform==X@pxt", T, X @ p.pxt_, 1e-9 * tsc, wh)
+    ctx.close("truncated:predict(X)==predict(T)", pX, pT, 1e-8 * max(1.0, float(np.abs(Y).max())), wh)
+    # in sample space the round trip is S^-1/2 V^T K~ V S^-1/2, the identity only as far as V are converged eigenvectors: with the
+    # randomized solver that is the accuracy of the sketch, not of the arithmetic (in feature space it only needs V^T V = I)
+    if space == "sample" and getattr(p, "fit_svd_solver_", t["solver"]) == "randomized":
+        ctx.skip("truncated: round trip limited by the accuracy of the randomized sketch (sample space)")
+        T2, Tn2 = T, Tn
+    ctx.close("truncated:roundtrip", T2, T, 1e-8 * tsc, wh + " transform(inverse_transform(T)) on the training set")
+    ctx.close("truncated:roundtrip(new)", Tn2, Tn, 1e-8 * max(1.0, float(np.abs(Tn).max())), wh + " transform(inverse_transform(T)) on new data")
+    lX = float(((X - R) ** 2).sum()) / float((X ** 2).sum())
+    lY = float(((Y - pT.reshape(n, -1)) ** 2).sum()) / float((Y ** 2).sum())
+    ctx.close("truncated:score", s, -(lX + lY), 1e-9 * (1 + lX + lY), wh + " score vs -(lX+lY)")
+    ctx.count("truncated_solver_fits")
 
 
 def summarize(case):
